@@ -128,6 +128,9 @@ COVERAGE = [
 	(L + 'routing::scoring::ProbabilisticScorer', [W(L + 'routing::scoring::ProbabilisticScorer')], {k: RT for k in ('decay_params', 'network_graph', 'logger', 'last_update_time')}),
 	(L + 'routing::scoring::ChannelLiquidity', [W(L + 'routing::scoring::ChannelLiquidity')], {}),
 	(L + 'util::sweep::SweeperState', [W(L + 'util::sweep::SweeperState')], {}),
+	# the per-channel configuration is persisted with the channel through the hand-written LegacyChannelConfig codec (FundedChannel TLV 5)
+	(L + 'util::config::LegacyChannelConfig', [W(L + 'util::config::LegacyChannelConfig')], {}),
+	(L + 'util::config::ChannelConfig', [W(L + 'util::config::LegacyChannelConfig')], {}),
 ]
 
 def r12b(F):
